@@ -6,7 +6,7 @@ All randomness comes from the seed handed in (VERIF_SEED).
 import random
 
 TYPES = [(0, 1), (0, 2), (0, 8), (0, 16), (1, 1), (2, 1), (3, 1), (5, 1), (9, 1), (17, 1), (64, 1), (2, 2), (6, 2), (4, 4), (12, 4),
-         (8, 8), (16, 8), (24, 8), (40, 8), (16, 16), (32, 16), (64, 16)]
+         (8, 8), (16, 8), (24, 8), (40, 8), (16, 16), (32, 16), (64, 16), (64, 64)]
 SAT = 1 << 30
 
 
